@@ -277,7 +277,7 @@ def restore(out, i, src_live, op, recipe, tol, phase):
     except Exception as e:  # noqa  the mechanism yielded no model at this save point
         msg = str(e)
         kind = "non_leaf_deepcopy" if ("graph leaves" in msg or "view was created in no_grad mode" in msg) else ("local_object" if "local object" in msg or "Can't pickle" in msg or "Can't get local" in msg else type(e).__name__)
-        out.violate("snapshot_failed", i, "%s of the model raised %s(%s) at a save point in phase %s" % (how, type(e).__name__, msg[:160], phase), exc_kind=kind, **cls)
+        out.violate("snapshot_failed", i, "%s of the model raised %s(%s) at a save point in phase %s" % (how, type(e).__name__, msg[:160], phase), exc_kind=kind, model_kind=("variational" if recipe["family"] == "variational" else recipe["family"]), defined_in=core.local_object_site(msg) if kind == "local_object" else "n/a", **cls)
         return None
     if how in ("pickle", "deepcopy"):
         restored = driver.Live(recipe, model=new)
